@@ -324,6 +324,7 @@ def run(ctx):
     local_rules(ctx, prog)
     poll_rules(ctx, prog)
     flag_word_rule(ctx, prog)
+    future_drop_rule(ctx, prog)
     lifecycle_orderings(ctx, prog)
     # ---------------- R7 awaiter_set
     reg = prog.one("AwaiterSet::register")
@@ -620,7 +621,9 @@ def local_rules(ctx, prog):
                 if c_ok:
                     g2 = [x for x in switch_guards(b, cons[0]) if x["src"].get("kind") == "discr" and
                           "InnerState" in b.local_ty((guard_src_place(x["src"]) or {"l": 0})["l"])["s"]]
-                    c_ok = bool(g2) and all(x["allowed"] == {1} for x in g2) and rbb not in b.reachable([cons[0]], unwind=False)
+                    # the Set arm: listed as 1, or the `otherwise` of a two-variant switch that lists only Unset (let-else form)
+                    c_ok = bool(g2) and all(x["allowed"] == {1} or (x["allowed"] == {"otherwise"} and x.get("listed") == [0]) for x in g2) and \
+                        rbb not in b.reachable([cons[0]], unwind=False)
                 ctx.ob("R8.local-poll", f"{mod}.register-only-while-unset", ok, b.loc(reg[0][1]["span"]), "registration is on the Unset arm of the state")
                 ctx.ob("R8.local-poll", f"{mod}.consume-on-ready", c_ok, b.loc(),
                        f"the stored signal is consumed (state = Unset) at {len(cons)} site(s), only on the Set arm, which does not register")
@@ -686,6 +689,25 @@ def poll_rules(ctx, prog):
 
 def _ordinal(cons, bb):
     return [x for x, _ in sorted(cons, key=lambda c: c[1]["span"]["line"])].index(bb)
+
+
+def future_drop_rule(ctx, prog):
+    """Dropping a wait future always hands the matter to the event's drop_wait (which decides under the lock whether the waiter
+    is registered / notified and forwards or restores a notification): the future itself has no reliable knowledge of that - a
+    wait that completed by consuming a STORED signal may still hold a notification from an earlier set()."""
+    n = 0
+    for b in prog.bodies:
+        if b.name != "drop" or not (b.impl_trait or "").endswith("ops::Drop") or not (b.impl_adt or "").startswith("events::") or \
+                not (b.impl_adt or "").endswith("WaitFuture") or "::tests" in b.key:
+            continue
+        n += 1
+        ctx.fn(b)
+        dw = [bb for bb, t in b.calls() if t["callee"].get("method") == "drop_wait" and not b.blocks[bb].cleanup]
+        pc = path_count(b, dw)
+        ctx.ob("R4.cancel-forwards-or-restores", f"{b.impl_adt.split('::')[-1]}.drop-always-reaches-drop_wait", pc == (1, 1), b.loc(),
+               f"drop_wait calls per normal path of the future's Drop: {pc}" + ("" if pc == (1, 1) else " - on the skipping path a notification the waiter still holds is neither forwarded nor restored: one set() is lost"))
+    if n == 0:
+        ctx.missing("R4.cancel-forwards-or-restores", "Drop impls of the events::*WaitFuture types")
 
 
 def flag_word_rule(ctx, prog):
